@@ -37,6 +37,7 @@ LEVEL_TEXT = ("Exploration of call histories: queries rich in cacheable sub-expr
 LEVEL_NOTE = ("Trusted: CPython, Hypothesis. The iterator-advancement rules are the systematic schedule exploration; the thread part "
               "is a stress sample, not an exploration of schedules. The caching-off fresh environment is the oracle here; C02/C13 "
               "anchor that mode to the independent reference model.")
+LEVEL_TEXT += ' Also exhaustive: 16 templates x 5 renamings of the identifier tokens (key, root, current node, context), caching on vs a fresh caching-off environment of the same class, 2 repetitions x 3 documents x 2 contexts.'
 BUDGET_S = {"quick": 75, "thorough": 700}
 RULE = ("Histories of <= 40 steps over 3-4 query texts x 3 documents x 2 contexts per machine. Non-trivial = a history with >= 2 "
         "evaluations of one compiled object on different documents whose query has a cacheable node and a volatile node, or with "
